@@ -206,7 +206,10 @@ def idx_from_indexes(e):
     if x[0] == "app" and flow.last(x[1]) in ("find", "next"):
         recv = deep_strip(x[2][0])
         # peel adaptors
-        while recv[0] == "app" and flow.last(recv[1]) in ("enumerate", "into_iter", "iter", "rev", "copied", "take") and recv[2]:
+        # (zip(indexes.iter(), digits.iter()): the position is the first component of the pair - the receiver side of the zip)
+        while recv[0] == "app" and flow.last(recv[1]) in ("enumerate", "into_iter", "iter", "rev", "copied", "take", "zip") and recv[2]:
+            if flow.last(recv[1]) == "zip" and not (e[0] == "field" and e[2] == "0" or (e[0] == "field" and deep_strip(e[1])[0] == "field" and deep_strip(e[1])[2] == "0")):
+                return False
             recv = deep_strip(recv[2][0])
         if recv[0] == "index":
             recv = deep_strip(recv[1])
@@ -246,6 +249,16 @@ def three_next(ctx, lib):
             # target: <clone of original>[ indexes[i] ]
             ok_t = tgt[0] == "index" and symx.contains(tgt[1], lambda n: n[0] == "field" and n[2] == "original") and idx_from_indexes(tgt[2])
             ctx.ob(rule, "store-target", ok_t, where=b.where(), expected="result[indexes[i]] with result = original.clone()", found=show(tgt)[:200])
+            # positions and digits paired by zip(indexes.iter(), current.iter()): both sides are the plain iterators, so that the k-th digit meets the k-th position
+            for z in symx.find_all(tgt[2] if tgt[0] == "index" else tgt, lambda n: n[0] == "app" and flow.last(str(n[1])) == "zip" and len(n[2]) == 2):
+                plain = True
+                for side in z[2]:
+                    for n_ in symx.find_all(side, lambda n: n[0] == "app"):
+                        nm = flow.last(str(n_[1]))
+                        if nm in LOSSY + ("rev", "chain", "cycle", "enumerate", "map"):
+                            plain = False
+                sides_ok = symx.contains(z[2][0], lambda n: n[0] == "field" and n[2] == "indexes") and symx.contains(z[2][1], lambda n: n[0] == "field" and n[2] == "current")
+                ctx.ob(rule, "zip-aligned", plain and sides_ok, where=b.where(), expected="self.indexes.iter().zip(current.iter()) - nothing skipped, reversed or filtered on either side", found=show(z)[:200])
             # digit condition: value of the enumerate item's second component
             dcond = [(deep_strip(e), v) for e, v in p.cond if deep_strip(e)[0] == "field" and deep_strip(e)[2] == "1"
                      and symx.contains(e, lambda n: n[0] == "app" and flow.last(n[1]) == "next")]
@@ -294,6 +307,87 @@ def none_justified(ctx, rule, b, paths):
     return n
 
 
+def three_decrement_position_form(ctx, lib, b, eng, paths, rule):
+    """the base-3 decrement written with slice adaptors: `match v.iter().position(|&d| d > 0) { Some(cur) => { v[cur] -= 1; v[..cur].fill(2); true } None => false }`.
+    `position` yields the index of the first element that satisfies the predicate, `fill` writes every element of the sub-slice (std semantics, trusted like the other adaptors)."""
+    def is_pos(x):
+        x = deep_strip(x)
+        return x[0] == "app" and flow.last(str(x[1])) == "position"
+    seen = set()
+    pos_closure = None
+    for p in paths:
+        if p.end != "return":
+            ctx.ob(rule, "decrement.paths", False, where=b.where(), expected="straight-line Some/None arms", found=p.describe()[:200])
+            continue
+        dv = None
+        pe = None
+        for e, v in p.cond:
+            e = deep_strip(e)
+            if e[0] == "app" and e[1] == "discr" and is_pos(e[2][0]):
+                dv, pe = int_of(v), deep_strip(e[2][0])
+        if pe is None:
+            ctx.cannot(rule, "decrement.position-test", "a match on position(..)", b.where(), p.describe()[:200])
+            continue
+        src = deep_strip(pe[2][0])
+        while src[0] == "app" and flow.last(str(src[1])) in ("&", "iter", "deref"):
+            src = deep_strip(src[2][0])
+        over_vec = symx.contains(pe[2][0], lambda n: n == ("sym", "*arg1")) and not symx.find_all(pe[2][0], lambda n: n[0] == "app" and flow.last(str(n[1])) in LOSSY + ("rev", "enumerate", "zip", "chain"))
+        if pe[2][1][0] == "closure":
+            pos_closure = pe[2][1][1]
+        stores = kernel.stores_of(p)
+        fills = [e for e in p.effects if e.get("kind") == "call" and flow.last(e["resolved"]) == "fill"]
+        cur = ("field", ("downcast", pe, "Some"), "0")
+        if dv == 0:
+            seen.add("exhausted")
+            ctx.ob(rule, "decrement.false-without-store", strip(p.ret) == vbool(False) and not stores and not fills, where=b.where(), expected="false, nothing written, when no digit is positive", found=p.describe()[:200])
+            continue
+        seen.add("decrement")
+        okd = False
+        for tgt, val, eff in stores:
+            tgt, val = deep_strip(tgt), deep_strip(val)
+            if eff.get("kind") == "store_index" and len(eff["args"]) == 3:
+                tgt = ("index", deep_strip(eff["args"][0]), deep_strip(eff["args"][1]))
+            if tgt[0] == "index" and deep_strip(tgt[2]) == cur and symx.contains(tgt[1], lambda n: n == ("sym", "*arg1")) and val == symx.lin_add(tgt, vint(-1)):
+                okd = True
+        ctx.ob(rule, "decrement.first-nonzero-minus-one", okd and over_vec and len(stores) == 1, where=b.where(), expected="v[cur] -= 1 with cur = position of the first positive digit of v",
+               found=[(show(deep_strip(t_))[:100], show(deep_strip(v_))[:60]) for t_, v_, _ in stores])
+        okr = False
+        if len(fills) == 1:
+            recv, val = deep_strip(fills[0]["args"][0]), deep_strip(fills[0]["args"][1])
+            rng = symx.find_all(recv, lambda n: n[0] == "adt" and (str(n[1]).endswith("ops::RangeTo") or str(n[1]).endswith("ops::Range")))
+            base = deep_strip(recv[1]) if recv[0] == "index" else None
+            while base is not None and base[0] == "app" and base[1] == "store_index":      # the vector after the decrement was stored
+                base = deep_strip(base[2][0])
+            if len(rng) >= 1 and val == vint(2) and recv[0] == "index" and base == ("sym", "*arg1") and deep_strip(recv[2]) == rng[-1]:
+                end = deep_strip(symx.adt_get(rng[-1], "end"))
+                start = symx.adt_get(rng[-1], "start")
+                okr = end == cur and (start is None or deep_strip(start) == vint(0))
+        seen.add("reset")
+        ctx.ob(rule, "decrement.reset-earlier-to-2", okr, where=b.where(), expected="v[..cur].fill(2)", found=[show(deep_strip(f_["args"][0]))[:140] for f_ in fills])
+        ctx.ob(rule, "decrement.true-after-store", strip(p.ret) == vbool(True), where=b.where(), expected="true", found=show(p.ret))
+    # the predicate of position: digit > 0
+    okp = False
+    if pos_closure is not None:
+        cb = lib.body(pos_closure)
+        st = symx.State()
+        env = eng.closure_env(st, cb, [])
+        D = ("sym", "digit")
+        outs = set()
+        for p2 in eng.summarise(cb, [env, shared.ref_to(st, D)], st):
+            outs.add(show(deep_strip(p2.ret)) if p2.end == "return" else p2.end)
+            r = deep_strip(p2.ret) if p2.end == "return" else None
+            if r is not None and r[0] == "app" and r[1] == "Gt" and deep_strip(r[2][0]) == D and deep_strip(r[2][1]) == vint(0):
+                okp = True
+            if r is not None and r[0] == "app" and r[1] == "Ne" and deep_strip(r[2][0]) == D and deep_strip(r[2][1]) == vint(0):
+                okp = True
+            if r is not None and r[0] == "app" and r[1] == "Ge" and deep_strip(r[2][0]) == D and deep_strip(r[2][1]) == vint(1):
+                okp = True
+        okp = okp and len(outs) == 1
+        seen.add("skip-zero")
+        ctx.ob(rule, "decrement.skip-only-zero", okp, where=cb.where(), expected="position predicate: digit > 0 (zeros are skipped, nothing else)", found=sorted(outs))
+    ctx.ob(rule, "decrement.cases", {"exhausted", "skip-zero", "decrement", "reset"} <= seen, where=b.where(), expected="exhausted / skip-zero / decrement / reset", found=sorted(seen))
+
+
 def three_decrement(ctx, lib):
     rule = "C20.R-step"
     try:
@@ -304,6 +398,8 @@ def three_decrement(ctx, lib):
     eng = ctx.engine([lib])
     paths = eng.summarise(b)
     seen = set()
+    if any(flow.last(ir.callee_path(ci) or "") == "position" for _, _, ci in b.calls()):
+        return three_decrement_position_form(ctx, lib, b, eng, paths, rule)
     for p in paths:
         stores = kernel.stores_of(p)
         gt = [(deep_strip(e), v) for e, v in p.cond if deep_strip(e)[0] == "app" and deep_strip(e)[1] in ("Gt", "Ne", "Ge", "Lt", "Le", "Eq")]
